@@ -2,7 +2,11 @@
 
 package parser
 
-import "strconv"
+import (
+	"strconv"
+
+	"github.com/benoitkugler/webrender/utils"
+)
 
 // Contracts for the deductive verifier in /verif (build tag verif: not compiled
 // into normal builds). Oracle: CSS Syntax Level 3 §4 (tokenization) for the
@@ -117,6 +121,72 @@ func vRegexps() (int, []string) {
 
 //@ bounded vRegexps hexEscapeRe and numberRe against hand-written matchers of CSS Syntax 3 §4.3.7 / §4.3.12 on every byte string up to length 8 (7 for numbers) over the significant characters
 //@   props C06
+
+// vHashColors runs ParseColor on every hash token of length 0..6 over ten characters (hex digits of the
+// three kinds, and the ASCII neighbours of the hex ranges: g G Z _ ` ^ @) and a few longer ones, and
+// compares with CSS Color 3 §4.2.1: a colour exactly when the value is three or six hex digits, each
+// channel the hex value over 255. A panic (mustParseHexa) is a failure.
+func vHashColors() (n int, fails []string) {
+	hexv := func(c byte) int {
+		switch {
+		case '0' <= c && c <= '9':
+			return int(c - '0')
+		case 'a' <= c && c <= 'f':
+			return int(c-'a') + 10
+		case 'A' <= c && c <= 'F':
+			return int(c-'A') + 10
+		}
+		return -1
+	}
+	check := func(b []byte) {
+		n++
+		s := string(b)
+		var got Color
+		panicked := false
+		func() {
+			defer func() {
+				if recover() != nil {
+					panicked = true
+				}
+			}()
+			got = ParseColor(Hash{stringVal{Value: s}})
+		}()
+		allHex := true
+		for _, c := range b {
+			if hexv(c) < 0 {
+				allHex = false
+			}
+		}
+		want := Color{}
+		if allHex && len(b) == 3 {
+			want = Color{Type: ColorRGBA, RGBA: RGBA{R: utils.Fl(hexv(b[0])*17) / 255, G: utils.Fl(hexv(b[1])*17) / 255, B: utils.Fl(hexv(b[2])*17) / 255, A: 1}}
+		} else if allHex && len(b) == 6 {
+			want = Color{Type: ColorRGBA, RGBA: RGBA{R: utils.Fl(hexv(b[0])*16+hexv(b[1])) / 255, G: utils.Fl(hexv(b[2])*16+hexv(b[3])) / 255, B: utils.Fl(hexv(b[4])*16+hexv(b[5])) / 255, A: 1}}
+		}
+		if (panicked || got != want) && len(fails) < 10 {
+			fails = append(fails, "ParseColor(#"+strconv.Quote(s)+")")
+		}
+	}
+	const alphabet = "09afAFgG_Z"
+	var rec func(buf []byte)
+	rec = func(buf []byte) {
+		check(buf)
+		if len(buf) == 6 {
+			return
+		}
+		for i := 0; i < len(alphabet); i++ {
+			rec(append(buf, alphabet[i]))
+		}
+	}
+	rec(make([]byte, 0, 8))
+	for _, s := range []string{"`12", "^12", "@12", "12`", "1`2456", "12345^", "abcdefa", "abcdef12", "abcd", "12345", "é12", "12é"} {
+		check([]byte(s))
+	}
+	return n, fails
+}
+
+//@ bounded vHashColors ParseColor on every hash value of length 0..6 over ten characters (hex digits and the ASCII neighbours of the hex ranges) against CSS Color 3 §4.2.1, panics included
+//@   props C07
 
 //@ func isSpace
 //@   props C06 C07
